@@ -124,6 +124,12 @@ class SymArray(_np.ndarray):
 
     def __setitem__(self, idx, val):
         idx = _concretise_index(idx)
+        if isinstance(val, _np.ndarray) and val.ndim > 0 and val.size == 1 \
+                and isinstance(idx, tuple) and len(idx) == self.ndim and all(
+                    isinstance(i, (int, _np.integer)) for i in idx):
+            # a float array converts a size-1 array assigned to one cell to
+            # its element (an object array would store the array itself)
+            val = val.reshape(-1)[0]
         return super(SymArray, self).__setitem__(idx, val)
 
 
@@ -144,7 +150,8 @@ def boolify(a):
 class NP(object):
     """Facade object bound to the name ``np`` inside chi modules."""
 
-    def __init__(self, random=None, pi_symbolic=True):
+    def __init__(self, random=None, pi_symbolic=True, alloc_view=False):
+        self.alloc_view = alloc_view
         self.pi = Sym(T.PI) if pi_symbolic else _np.pi
         self.ma = MA()
         if random is not None:
@@ -167,7 +174,9 @@ class NP(object):
             return None
         a = _np.empty(shape, dtype=object)
         a.fill(fill)
-        return a
+        # (chi._problems assigns size-1 arrays to single cells, which only
+        # float arrays -- and SymArray -- convert to their element)
+        return a.view(SymArray) if self.alloc_view and a.ndim >= 1 else a
 
     def zeros(self, shape, dtype=None, **k):
         a = self._alloc(shape, Sym(T.ZERO), dtype)
